@@ -35,7 +35,14 @@
 (*                no step runs, the caller gets an error, and if the       *)
 (*                database did begin, the transaction is rolled back       *)
 (*                (finished exactly once).                                 *)
+(*                "zero" is no handle at all (nil, or a gorm.DB that was    *)
+(*                never opened): nothing can be begun and no step runs;    *)
+(*                whether the caller gets an error or a panic is left open.*)
 (*   cfg.begin / commit / rollback   does the database accept the request  *)
+(*                                                                         *)
+(* Very long lists are recorded run-length encoded: steps{from,to} stands  *)
+(* for step{i}, end{i,ok} of every i in from..to, all of them steps that   *)
+(* execute nothing, end nothing and return nil.                            *)
 (*                                                                         *)
 (* ret / gone carry two observations of the caller: `inuse` connections of  *)
 (* the pool still checked out after the call (a finished transaction gives *)
@@ -148,7 +155,7 @@ RetOnDead(r) ==
 Do(a) ==
   CASE a.ev = "begin" ->
          /\ pc = "start" /\ cfg.n > 0 /\ a.ok = cfg.begin
-         /\ cfg.cancel # 0 /\ cfg.db # "nobegin"  \* these never reach the database
+         /\ cfg.cancel # 0 /\ cfg.db \in {"ok", "err"}  \* the others never reach the database
          /\ begun' = Append(begun, a.ok)
          /\ pc' = IF ~a.ok THEN "nobegin" ELSE IF cfg.db = "err" THEN "errbegun" ELSE "run"
          /\ UNCHANGED <<cfg, cur, nex, fail, ran, execs, fin, ret>>
@@ -156,6 +163,13 @@ Do(a) ==
          /\ pc = "run" /\ a.i = cur + 1 /\ a.i <= NSteps /\ Out(a.i) # "nilfn"
          /\ pc' = "in" /\ cur' = a.i /\ nex' = 0 /\ ran' = Append(ran, a.i)
          /\ UNCHANGED <<cfg, fail, begun, execs, fin, ret>>
+    [] a.ev = "steps" ->
+         /\ pc = "run" /\ a.from = cur + 1 /\ a.from <= a.to /\ a.to <= NSteps
+         /\ \A i \in a.from..a.to : /\ Out(i) = "ok" /\ Need(i) = 0
+                                    /\ cfg.steps[i].fin = "none" /\ cfg.cancel # i
+         /\ cur' = a.to /\ nex' = 0
+         /\ ran' = ran \o [k \in 1..(a.to - a.from + 1) |-> a.from + k - 1]
+         /\ UNCHANGED <<cfg, pc, fail, begun, execs, fin, ret>>
     [] a.ev = "exec" ->
          /\ pc = "in" /\ a.i = cur /\ nex < Need(cur) /\ ~Dead
          /\ a.tx = TRUE                          \* on the connection that holds the transaction
@@ -199,7 +213,8 @@ Do(a) ==
             ELSE /\ CASE pc = "start" ->
                           IF cfg.n = 0 THEN a.r.kind # "raised"            \* value left open
                           ELSE /\ cfg.cancel = 0 \/ cfg.db # "ok"          \* begin refused / failed
-                               /\ IsError(a.r)
+                               /\ IF cfg.db = "zero" THEN IsError(a.r) \/ a.r.kind = "raised"
+                                                     ELSE IsError(a.r)
                         [] pc = "nobegin"  -> IsError(a.r)               \* which error: left open
                         [] pc = "finished" -> RetAfterFinish(a.r)
                         [] pc = "run"      -> cur = NSteps /\ Dead /\ RetOnDead(a.r)
@@ -237,6 +252,7 @@ RetVals ==      [kind : {"nil", "begin", "commit", "rollback", "other", "raised"
 Acts ==
        [ev : {"begin", "commit", "rollback"}, ok : BOOLEAN]
   \cup [ev : {"step"}, i : 1..MaxSteps]
+  \cup [ev : {"steps"}, from : 1..MaxSteps, to : 1..MaxSteps]
   \cup [ev : {"exec"}, i : 1..MaxSteps, tx : BOOLEAN]
   \cup [ev : {"end"}, i : 1..MaxSteps, out : Outs]
   \cup [ev : {"ret"}, r : RetVals, inuse : {0, 1}, inmut : BOOLEAN]
@@ -288,7 +304,7 @@ NoBeginForEmpty == (cfg.n = 0 => begun = <<>>) /\ Len(begun) <= 1
 RetRight ==
   (pc = "done" /\ ret # Gone) =>
      /\ cfg.n > 0 => (ret = Nil <=> fin = <<Fin("commit", TRUE, "transact", 0)>>)
-     /\ ret.kind # "raised"
+     /\ ret.kind = "raised" => cfg.db = "zero"
      /\ (fail > 0 /\ Out(fail) = "err")    => ret = [kind |-> "step", i |-> fail]
      /\ (fail > 0 /\ Out(fail) \in {"panic", "nilfn"}) => ret = PanicOf(fail)
      /\ cfg.db # "ok" => ran = <<>>
@@ -298,7 +314,7 @@ GoneOnlyByExit == ret = Gone => fail > 0 /\ Out(fail) = "exit"
 (* action properties, read off the action record of each step *)
 StepsOnlyInOpenTx ==
   [][LET a == last' IN
-       /\ a.ev = "step" => Began /\ fail = 0 /\ (fin = <<>> \/ Dead)
+       /\ a.ev \in {"step", "steps"} => Began /\ fail = 0 /\ (fin = <<>> \/ Dead)
        /\ a.ev = "exec" => Began /\ fail = 0 /\ fin = <<>>]_allvars
 ExecInsideTx ==
   [][LET a == last' IN a.ev = "exec" => a.tx]_allvars
